@@ -1,6 +1,68 @@
-(* ParAnytime.v — property C05, parallel half: the bounds reported by the parallel solver (Par.v, model of
-   ddo/src/implementation/solver/parallel.rs after the repair of finding D3) stay sound when the search is cut off at
-   any point, for EVERY schedule, EVERY fuel, EVERY number of workers T >= 1 and EVERY cutoff. *)
+(* ParAnytime.v — property C05, PARALLEL half: the bounds reported by the parallel solver stay sound when the search is
+   cut off at any point.  Model: Par.v (ddo/src/implementation/solver/parallel.rs AFTER the repair of finding D3, commit
+   eb0e83b: abort_search takes the maximum over the aborting node's bound, the incumbent, the other workers'
+   upper_bounds slots and the top of the fringe).  For EVERY schedule, EVERY fuel, EVERY number of workers T >= 1,
+   EVERY feasible warm start and EVERY cutoff.  Configuration: sc_use_cache = false, sc_nodup = false (as ParProofs.v).
+
+   WHAT THE MODEL DOES AT AN ABORT (Par.par_step, case PAbort n, worker w):
+       cur  := fold over ALL slots u of p_upper_bounds (w's own slot included), from max (sp_ub n, p_lb):
+                 if u = IMAX then skip (IMAX = "idle") else max;
+       cur' := max (cur, sp_ub (top of the fringe))   if the fringe is not empty (pq_pop_max: the top dominates the fringe);
+       p_ub := if p_ub = IMAX then cur' else max (cur', p_ub);   p_abort := true;   fringe := [];   cache cleared.
+   So a SECOND abort_search (another worker) takes a maximum that includes the previous p_ub -- unless the previous p_ub
+   is still IMAX, in which case it is OVERWRITTEN.  [abort_ub] below is this value; ex3_second_abort shows a second abort.
+
+   FINDING (residual of D3).  isize::MAX is used as a sentinel twice: "slot idle" in upper_bounds and "best_ub not
+   set".  A worker busy with a node whose bound IS isize::MAX is taken for idle, and a best_ub that was legitimately set to
+   isize::MAX is overwritten by the next abort_search.  Either way the reported upper bound can fall BELOW the optimum:
+   module Residual exhibits a problem + relaxation meeting every hypothesis of Assembly.Main (residual_premises) and a
+   finished run with best_ub = 10 < 15 = optimum (residual_unsound, C05_parallel_anytime_unconditional_refuted).  The
+   root is harmless (it is alone when it is processed); the trouble needs a CUT-SET node whose bound is isize::MAX, i.e.
+   a relaxed diagram whose best value, local bound and rough bound all saturate.  Consequently the theorem needs one
+   premise more than the sequential one (SolverCutoff.seq_anytime_sound), in one of two forms:
+     (a) KC3_lt   : one more contract on completed relaxed compilations: the bound of a cut-set node is < isize::MAX;
+     (b) par_chk  : a boolean check of the run itself: at every abort step either no OTHER worker answers for a node, or
+                    none of the bounds involved (other workers' nodes, own node, fringe top) is isize::MAX.
+   (a) is proved to imply the per-step condition [AbortOK] on every reachable state (invariant LtV); (b) is decided by
+   vm_compute on a concrete run and is what makes the instantiations below possible (no diagram-level theorem of this
+   development bounds sp_ub from above).  residual_not_KC3_lt: the Residual configuration violates (a).
+
+   STOREY 1 (abstract contracts; premises = those of ParProofs.par_optimal WITHOUT sc_cutoff cfg = 0, packaged as
+   SolverCutoff.contracts / SolverCutoff.semantics: the contracts constrain only compilations whose outcome is
+   Compiled, plus the absence of a model crash for all of them):
+       par_anytime_sound            KC3_lt -> 1 <= T -> primal_okP feasible primal -> pr_end r = PFinished ->
+                                      pr_crash r = false /\ pr_lb r <= pr_ub r /\
+                                      (forall o, OPT = Some o -> pr_lb r <= o <= pr_ub r) /\
+                                      (OPT = None -> pr_value r = None /\ pr_sol r = None) /\
+                                      (forall v, pr_value r = Some v -> pr_lb r = v /\
+                                           exists sol, pr_sol r = Some (sort_by dec_var_cmp sol) /\ feasible sol v) /\
+                                      (pr_exact r = true -> pr_value r = OPT)
+       par_anytime_sound_checked    the same with  par_chk st_eqb cfg fuel T primal sched = true  instead of KC3_lt
+       par_anytime_sound_any_end / par_anytime_sound_checked_any_end
+                                    [sound_result r] for ANY way the run ends (POutOfFuel included: the bounds are sound
+                                    in every reachable state; only the last clause is conditional on PFinished)
+   STOREY 2 (Mdd.compile, clean flavours; hypotheses of Assembly.Main / Assembly.Cutoffs; OPT = opt_enum pb):
+       C05_parallel_anytime (+ _any_end)        with par_chk;   C05_parallel_anytime_lt (+ _any_end)   with KC3_lt
+     The form requested -- the statement of C05_parallel_anytime WITHOUT the par_chk premise -- is FALSE
+     (Residual.C05_parallel_anytime_unconditional_refuted).
+   NON-VACUITY: C05_parallel_table_instances (every t_wf instance), ex3_* (3 workers, cutoff 7: three workers abort, two of
+     them sit at PAbort at the same time; lb = 3 < 7 = optimum <= 8 = ub; the first abort_search is run by the worker whose
+     own node has bound 6 < 7 -- what the pre-fix code would have reported), ex3_out_of_fuel, ex_ti_abort.
+   NOT DONE: Par.v has no pre-fix variant of abort_search (the only `prefix` of the development is
+     Run.tb_par_maximize_prefix = upper_bounds sized by the constructor, finding D2), so no refutation example for the
+     pre-fix D3 behaviour; ParProofs.v contains no lemma named D3_*.
+
+   THE INVARIANT (AInv, on top of ParProofs.PInv):
+     Incumbent   the incumbent is a feasible solution (any regime);
+     Slots       upper_bounds[w] = sp_ub n whenever worker w is busy with n (step_ubs: what each transition does to
+                 upper_bounds, by plain computation on the model);
+     CalmV       while p_abort = false: the invariant of ParProofs.par_optimal, where a compilation that is cut short goes
+                 to PAbort n and KEEPS the responsibility for n (resp); + "no exit yet -> p_ub = IMAX";
+     AbV         once p_abort = true: p_lb <= p_ub, OPT <= p_ub, and "p_ub = IMAX -> OPT <= p_lb or nobody answers for a
+                 node" (what protects the bound against the overwrite by a later abort_search).
+   abort_step: CalmV or AbV, Slots, AbortOK  ==>  AbV after abort_search (the optimum's witness is in the fringe: below
+   the top; or held by the aborting worker: its own bound; or held by another worker: that worker's slot, not skipped).
+   Stdlib only, no axioms (Print Assumptions at the end). *)
 Require Import DDO.Base DDO.Fringe DDO.FringeProofs DDO.Fringe2 DDO.DP DDO.Cache DDO.Dom DDO.Mdd DDO.Solver DDO.Par.
 Require Import DDO.SolverProofs DDO.SolverCutoff DDO.ParProofs.
 From Coq Require Import Permutation Arith Lia List ZArith Bool.
@@ -1311,3 +1373,304 @@ Section TableParallel.
   Qed.
 End TableParallel.
 
+(* a concrete instance: 3 variables (static order 0, 1, 2), 3 base states, rows (var, base, value, dst, cost):
+     x0: 0 -0-> 0 (+3)   0 -1-> 1 (+2)   0 -2-> 2 (+1)
+     x1: 0 -0-> 0 (+0)   1 -0-> 1 (+0)   2 -0-> 2 (+0)
+     x2: 0 -0-> 0 (+0)   1 -0-> 1 (+5)   2 -0-> 2 (+0)
+   optimum 7 (x0 = 1).  Width 1: the restricted diagram of the root says 3, the relaxed one 8; the cut-set of the root is
+   A = ([0], 3, ub 8), B = ([1], 2, ub 7), C = ([2], 1, ub 6); the optimum lives under B.  The root costs 6 polls. *)
+Definition ex3_ti : tinst := {|
+  t_nvars := 3; t_nbase := 3; t_init := 0; t_initval := 0; t_slack := 0; t_rubkind := 0; t_domkind := 0;
+  t_usevalue := false; t_ncoord := 0; t_order := [0; 1; 2]%nat;
+  t_trans := [ (0%nat, 0, 0, 0, 3); (0%nat, 0, 1, 1, 2); (0%nat, 0, 2, 2, 1);
+               (1%nat, 0, 0, 0, 0); (1%nat, 1, 0, 1, 0); (1%nat, 2, 0, 2, 0);
+               (2%nat, 0, 0, 0, 0); (2%nat, 1, 0, 1, 5); (2%nat, 2, 0, 2, 0) ];
+  t_notimp := []; t_rub := []; t_key := []; t_coords := []; t_mergekind := 0; t_pos := []; t_up := [] |}.
+
+Example ex3_wf : t_wf ex3_ti 5.
+Proof. apply t_wfb_spec. vm_compute. reflexivity. Qed.
+Example ex3_opt : opt_enum (t_problem ex3_ti) = Some 7.
+Proof. vm_compute. reflexivity. Qed.
+
+(* cutoff 7: the first compilation after the root is cut at its first poll *)
+Definition ex3_cfg (cutoff : nat) : @sconfig tstate := tb_sconfig ex3_ti CleanLEL false false false 1 cutoff.
+(* 3 workers.  Worker 0 processes the root (7 transitions); workers 0, 1, 2 take A, B, C; worker 2 then worker 1 start
+   compiling and are cut (both sit at PAbort); worker 2 then worker 1 run abort_search; the rest follows the default
+   policy (worker 0's compilation is cut as well: a third abort_search) *)
+Definition ex3_sched : list nat := [0;0;0;0;0;0;0; 0;1;2; 2;1; 2;1]%nat.
+
+Definition pc_tag {St} (p : @pc St) : nat :=
+  match p with
+  | PGetWork => 0 | PParked => 1 | PReadLb1 _ => 2 | PUpdate1 _ _ _ => 3 | PReadLb2 _ => 4 | PUpdate2 _ _ _ => 5
+  | PEnqueue _ _ _ => 6 | PAbort _ => 7 | PNotify _ _ => 8 | PExited => 9
+  end.
+Definition held_ub {St} (p : @pc St) : option Z := option_map (@sp_ub St) (busy_node p).
+(* the state after k transitions of the run: (pcs, bounds of the nodes held, upper_bounds, abort flag, best_lb, best_ub) *)
+Definition ex3_after (k : nat) :=
+  let '(s, _, _) := par_run tstate_eqb (ex3_cfg 7) k (init_pstate tstate_eqb (ex3_cfg 7) 3 3 None) ex3_sched None [] in
+  (map pc_tag (p_workers s), map held_ub (p_workers s), p_upper_bounds s, p_abort s, p_lb s, p_ub s).
+
+(* two different workers are at PAbort at the same time (the situation finding D3 was about) *)
+Example ex3_two_workers_at_abort :
+  ex3_after 12 = ([2; 7; 7]%nat, [Some 8; Some 7; Some 6], [8; 7; 6], false, 3, IMAX).
+Proof. vm_compute. reflexivity. Qed.
+
+(* worker 2 aborts first: its own node C has bound 6 < 7 = optimum (the optimum is under B, held by worker 1); the
+   repaired abort_search takes the maximum with upper_bounds[0] = 8 and upper_bounds[1] = 7 *)
+Example ex3_first_abort : ex3_after 13 = ([2; 7; 8]%nat, [Some 8; Some 7; Some 6], [8; 7; 6], true, 3, 8).
+Proof. vm_compute. reflexivity. Qed.
+(* the second abort_search (worker 1) takes a maximum with the previous best_ub: the bound is kept *)
+Example ex3_second_abort : ex3_after 14 = ([2; 8; 8]%nat, [Some 8; Some 7; Some 6], [8; 7; 6], true, 3, 8).
+Proof. vm_compute. reflexivity. Qed.
+
+Notation ex3_result := (par_maximize tstate_eqb (ex3_cfg 7) 200 3 3 None ex3_sched) (only parsing).
+
+Example ex3_run :
+  (pr_end ex3_result, pr_exact ex3_result, pr_crash ex3_result, pr_lb ex3_result, pr_ub ex3_result, pr_value ex3_result)
+    = (PFinished, false, false, 3, 8, Some 3) /\
+  filter (fun e => match snd e with SAbortSearch => true | _ => false end) (pr_trace ex3_result)
+    = [(2%nat, SAbortSearch); (1%nat, SAbortSearch); (0%nat, SAbortSearch)].
+Proof. vm_compute. split; reflexivity. Qed.
+
+Example ex3_chk : par_chk tstate_eqb (ex3_cfg 7) 200 3 None ex3_sched = true.
+Proof. vm_compute. reflexivity. Qed.
+
+(* the theorem applies to this run (the inequalities come from the theorem, not from the computation) ... *)
+Example ex3_by_theorem :
+  pr_crash ex3_result = false /\ pr_lb ex3_result <= 7 <= pr_ub ex3_result /\
+  (forall v, pr_value ex3_result = Some v ->
+     exists sol, pr_sol ex3_result = Some (sort_by dec_var_cmp sol) /\ MddProgress.feasible (t_problem ex3_ti) sol v).
+Proof.
+  destruct (C05_parallel_table_instances ex3_ti 5 ex3_wf CleanLEL (or_introl eq_refl) 1 (le_n 1) 7 3 200 ex3_sched
+              (le_S _ _ (le_S _ _ (le_n 1))) ex3_chk) as (A1 & A2 & A3 & A4 & A5 & A6).
+  split; [exact A1|]. split; [exact (A3 7 ex3_opt)|].
+  intros v Hv. destruct (A5 v Hv) as (_ & sol & S1 & _ & S3). exists sol. auto.
+Qed.
+(* ... and it is not vacuous: the run aborted, lb = 3 < optimum = 7 <= ub = 8 *)
+Example ex3_strict : pr_exact ex3_result = false /\ pr_lb ex3_result < 7 /\ 7 <= pr_ub ex3_result /\ pr_ub ex3_result < IMAX.
+Proof. vm_compute. repeat split; discriminate || reflexivity. Qed.
+
+(* the theorem also speaks of runs stopped by the fuel, e.g. right after the first abort_search *)
+Example ex3_out_of_fuel :
+  let r := par_maximize tstate_eqb (ex3_cfg 7) 13 3 3 None ex3_sched in
+  pr_end r = POutOfFuel /\ pr_lb r <= 7 <= pr_ub r.
+Proof.
+  split; [vm_compute; reflexivity|].
+  assert (Hchk : par_chk tstate_eqb (ex3_cfg 7) 13 3 None ex3_sched = true) by (vm_compute; reflexivity).
+  destruct (C05_parallel_table_instances ex3_ti 5 ex3_wf CleanLEL (or_introl eq_refl) 1 (le_n 1) 7 3 13 ex3_sched
+              (le_S _ _ (le_S _ _ (le_n 1))) Hchk) as (_ & _ & A3 & _).
+  exact (A3 7 ex3_opt).
+Qed.
+
+(* the instance of TableWf.v (optimum 12): cutoff 5 stops the root during its relaxed compilation, after the restricted
+   one has found 12; the run is not exact, and best_ub = isize::MAX (the root's own bound) *)
+Example ex_ti_abort :
+  let r := par_maximize tstate_eqb (tb_sconfig ex_ti CleanLEL false false false 1 5) 200 2 2 None [] in
+  (pr_end r, pr_exact r, pr_lb r, pr_ub r) = (PFinished, false, 12, IMAX) /\ pr_lb r <= 12 <= pr_ub r.
+Proof.
+  split; [vm_compute; reflexivity|].
+  assert (Hchk : par_chk tstate_eqb (tb_sconfig ex_ti CleanLEL false false false 1 5) 200 2 None [] = true) by (vm_compute; reflexivity).
+  destruct (C05_parallel_table_instances ex_ti 7 ex_wf CleanLEL (or_introl eq_refl) 1 (le_n 1) 5 2 200 []
+              (le_S _ _ (le_n 1)) Hchk) as (_ & _ & A3 & _).
+  exact (A3 12 ex_opt).
+Qed.
+
+(* ================================================================== 8. the side condition cannot be dropped
+   A problem and a relaxation that meet EVERY hypothesis of section Storey2 (residual_premises), on which a finished run
+   of the repaired protocol reports best_ub = 10 while the optimum is 15 (residual_unsound).
+     states: 0 root; x0 = 0 -> X = 1 (+5), x0 = 1 -> Y = 2 (+0); X: x1 = 0 -> 3 (+1), x1 = 1 -> 6 (+0); Y: x1 = 0 -> 4 (+0);
+             x2: 3 (+0), 6 (+10), 4 (+1); 9 = the merged state (covers every state, costs 5 / 1 / 10 per variable).
+     relaxation: merge = 9, rough bound = isize::MAX, relax = isize::MAX on the edges that leave X (any over-estimate
+             is a valid relaxation), the cost itself elsewhere.
+   Width 1: the root's restricted diagram says 6, its cut-set is X (bound isize::MAX) and Y (bound 10); the optimum 15 is
+   under X.  Two workers; worker 0 takes X, worker 1 takes Y; cutoff 7 cuts both compilations.
+     - worker 0 runs abort_search first: best_ub = isize::MAX (its own bound);
+     - worker 1 runs abort_search second: best_ub still holds isize::MAX, so the code OVERWRITES it with
+       max (10, best_lb = 6, slots other than isize::MAX) = 10 -- upper_bounds[0] = isize::MAX is read as "idle".
+   (In the other order the first abort_search already yields 10: residual_transient.) *)
+Module Residual.
+  Definition costR (s : Z) (d : decision) : Z :=
+    match d_var d with
+    | O => if s =? 9 then 5 else if d_val d =? 0 then 5 else 0
+    | S O => if s =? 9 then 1 else if (s =? 1) && (d_val d =? 0) then 1 else 0
+    | _ => if s =? 9 then 10 else if s =? 6 then 10 else if s =? 4 then 1 else 0
+    end.
+  Definition trR (s : Z) (d : decision) : Z :=
+    if s =? 9 then 9
+    else if s =? 0 then (if d_val d =? 0 then 1 else 2)
+    else if s =? 1 then (if d_val d =? 0 then 3 else 6) else if s =? 2 then 4 else 5.
+  Definition domR (x : nat) (s : Z) : list Z :=
+    if s =? 9 then [0; 1]
+    else if Nat.eqb x 0 then [0; 1] else if Nat.eqb x 1 then (if s =? 1 then [0; 1] else [0]) else [0].
+  Definition pbR : problem Z := {|
+    nb_vars := 3; init_state := 0; init_value := 0;
+    transition := trR; transition_cost := fun s _ d => costR s d;
+    next_variable := fun depth _ => if Nat.ltb depth 3 then Some depth else None;
+    domain := domR; is_impacted_by := fun _ _ => true |}.
+  Definition rlxR : relaxation Z := {|
+    merge := fun _ => 9;
+    relax := fun src _ _ _ c => if src =? 1 then IMAX else c;
+    fast_upper_bound := fun _ => IMAX |}.
+  Definition cfgR (k : nat) : @sconfig Z := {|
+    sc_flavour := CleanLEL; sc_problem := pbR; sc_relax := rlxR; sc_ranking := Z.compare;
+    sc_domcmp := fun a va b vb => cmp_then (Zcmp va vb) (Z.compare a b); sc_domrule := None; sc_width := 1;
+    sc_use_cache := false; sc_nodup := false; sc_cutoff := k |}.
+
+  Definition covR (s s' : Z) : Prop := s = s' \/ s = 9.
+
+  Lemma costR_range s d : 0 <= costR s d <= 10.
+  Proof.
+    unfold costR. destruct (d_var d) as [|[|x]];
+      repeat match goal with |- context [if ?b then _ else _] => destruct b end; lia.
+  Qed.
+  Lemma costR_9 s d : costR s d <= costR 9 d.
+  Proof.
+    unfold costR. destruct (d_var d) as [|[|x]]; rewrite Z.eqb_refl;
+      repeat match goal with |- context [if ?b then _ else _] => destruct b end; lia.
+  Qed.
+  Lemma domR_9 x s v : In v (domR x s) -> In v (domR x 9).
+  Proof.
+    unfold domR. rewrite Z.eqb_refl.
+    repeat match goal with |- context [if ?b then _ else _] => destruct b end; cbn [In]; tauto.
+  Qed.
+
+  Lemma fold_bound (c : Z -> Z) (g : Z -> option Z) lo hi l h :
+    fold_right (fun val acc => omax (oadd (c val) (g val)) acc) None l = Some h ->
+    (forall val h', In val l -> g val = Some h' -> lo <= c val + h' <= hi) -> lo <= h <= hi.
+  Proof.
+    revert h. induction l as [|a l IH]; intros h H Hb; cbn [fold_right] in H; [discriminate|].
+    destruct (g a) as [ha|] eqn:Ea; cbn [oadd option_map omax] in H.
+    - pose proof (Hb a ha (or_introl eq_refl) Ea) as Ha.
+      destruct (fold_right (fun val acc => omax (oadd (c val) (g val)) acc) None l) as [hl|] eqn:El.
+      + inversion H; subst h. assert (lo <= hl <= hi) by (apply IH; [reflexivity|intros; eapply Hb; eauto; right; assumption]). lia.
+      + inversion H; subst h. lia.
+    - apply IH; [exact H|]. intros; eapply Hb; eauto. right; assumption.
+  Qed.
+
+  Lemma hstar_bound : forall fuel k s h, hstar pbR fuel k s = Some h -> 0 <= h <= 10 * Z.of_nat fuel.
+  Proof.
+    induction fuel as [|fuel IH]; intros k s h H; cbn [hstar] in H; [inversion H; lia|].
+    cbn [next_variable pbR] in H. destruct (Nat.ltb k 3); [|inversion H; lia].
+    apply (fold_bound _ _ 0 (10 * Z.of_nat (S fuel))) in H; [exact H|].
+    intros val h' _ Hh. apply IH in Hh. cbn [transition_cost pbR].
+    pose proof (costR_range s {| d_var := k; d_val := val |}). lia.
+  Qed.
+
+  Lemma frun_bound : forall ds k s v s' v', frun pbR k s v ds = Some (s', v') -> v <= v' <= v + 10 * Z.of_nat (3 - k).
+  Proof.
+    induction ds as [|d ds IH]; intros k s v s' v' H; cbn [frun] in H; [inversion H; lia|].
+    destruct (var_ok pbR k d) eqn:Ev; cbn [andb] in H; [|discriminate].
+    destruct (in_domain pbR s d); [|discriminate]. apply IH in H.
+    unfold var_ok in Ev. cbn [next_variable pbR] in Ev. destruct (Nat.ltb_spec k 3) as [Hk|Hk]; [|discriminate].
+    cbn [transition_cost pbR] in H. pose proof (costR_range s d).
+    replace (3 - k)%nat with (S (3 - S k)) by lia. lia.
+  Qed.
+
+  Lemma wf_coverR k : wf_cover (cfgR k) covR.
+  Proof.
+    split; [intros s; left; reflexivity|]. split; [|split].
+    - intros s s' x v [<- | ->] Hin; cbn [sc_problem cfgR domain transition transition_cost pbR] in *.
+      + split; [exact Hin|]. split; [left; reflexivity|lia].
+      + split; [eapply domR_9; eauto|]. split; [right; unfold trR; rewrite Z.eqb_refl; reflexivity|apply costR_9].
+    - intros L s s' _ _. right. reflexivity.
+    - intros j s s' h _ Hh. cbn [sc_relax cfgR fast_upper_bound rlxR sc_problem] in *. unfold H in Hh.
+      apply hstar_bound in Hh. cbn [nb_vars pbR] in Hh. unfold IMAX. lia.
+  Qed.
+
+  (* all the hypotheses of section Storey2 (those of Assembly.Main), with B = 100 *)
+  Theorem residual_premises k :
+    (forall a b, Z.eqb a b = true <-> a = b) /\
+    (sc_flavour (cfgR k) = CleanLEL \/ sc_flavour (cfgR k) = CleanFC) /\
+    sc_use_cache (cfgR k) = false /\ sc_domrule (cfgR k) = None /\ sc_nodup (cfgR k) = false /\ (1 <= sc_width (cfgR k))%nat /\
+    (forall j l1 l2, next_variable (sc_problem (cfgR k)) j l1 = next_variable (sc_problem (cfgR k)) j l2) /\
+    (forall j l, (j < nb_vars (sc_problem (cfgR k)))%nat -> exists x, next_variable (sc_problem (cfgR k)) j l = Some x) /\
+    (forall j l, (nb_vars (sc_problem (cfgR k)) <= j)%nat -> next_variable (sc_problem (cfgR k)) j l = None) /\
+    wf_relaxation (cfgR k) /\
+    2 * 100 <= IMAX /\
+    (forall ds s' v', frun (sc_problem (cfgR k)) 0 (init_state (sc_problem (cfgR k))) (init_value (sc_problem (cfgR k))) ds = Some (s', v') ->
+                      - 100 <= v' <= 100).
+  Proof.
+    split; [exact Z.eqb_eq|]. split; [left; reflexivity|]. split; [reflexivity|]. split; [reflexivity|].
+    split; [reflexivity|]. split; [cbn; lia|]. split; [reflexivity|]. split; [|split; [|split; [|split]]].
+    - intros j l Hj. cbn [sc_problem cfgR nb_vars next_variable pbR] in *. apply Nat.ltb_lt in Hj. rewrite Hj. eauto.
+    - intros j l Hj. cbn [sc_problem cfgR nb_vars next_variable pbR] in *. apply Nat.ltb_ge in Hj. rewrite Hj. reflexivity.
+    - exists covR. right. split; [apply wf_coverR|]. split; [|split].
+      + intros s d. cbn [sc_problem cfgR transition_cost pbR]. pose proof (costR_range s d). unfold in_isize, IMIN, IMAX. lia.
+      + intros src dst mg d c Hc. cbn [sc_relax cfgR relax rlxR]. destruct (src =? 1); [unfold in_isize, IMIN, IMAX; lia|exact Hc].
+      + intros src dst mg d c Hc. cbn [sc_relax cfgR relax rlxR]. destruct (src =? 1); [apply Hc|lia].
+    - unfold IMAX. lia.
+    - intros ds s' v' Hr. cbn [sc_problem cfgR init_state init_value pbR] in Hr. apply frun_bound in Hr. cbn in Hr. lia.
+  Qed.
+
+  Example residual_opt : opt_enum pbR = Some 15.
+  Proof. vm_compute. reflexivity. Qed.
+
+  (* the cut-set of the root: (state, value, depth, bound) *)
+  Example residual_cutset :
+    let inp := mk_input (cfgR 7) Relaxed (root_node (cfgR 7)) 6 in
+    map (fun x => (sp_state x, sp_value x, sp_depth x, sp_ub x))
+        (drain_cutset inp (fst (compile Z.eqb inp 0 0 [] (init_dstore 3) 0))) = [(1, 5, 1%nat, IMAX); (2, 0, 1%nat, 10)].
+  Proof. vm_compute. reflexivity. Qed.
+
+  (* worker 0: root (7 transitions); workers 0, 1 take X, Y; both compilations are cut; abort_search of 0, then of 1 *)
+  Definition schedR : list nat := [0;0;0;0;0;0;0; 0;1; 0;1; 0;1]%nat.
+
+  Example residual_unsound :
+    let r := par_maximize Z.eqb (cfgR 7) 200 2 2 None schedR in
+    (pr_end r, pr_exact r, pr_crash r, pr_lb r, pr_ub r) = (PFinished, false, false, 6, 10) /\
+    par_chk Z.eqb (cfgR 7) 200 2 None schedR = false.
+  Proof. vm_compute. split; reflexivity. Qed.
+
+  (* the other order: worker 1 (node Y, bound 10) aborts while worker 0 holds X; upper_bounds[0] = isize::MAX is
+     skipped and the bound is 10 < 15 until worker 0's own abort_search raises it to isize::MAX *)
+  Example residual_transient :
+    let r := par_maximize Z.eqb (cfgR 7) 12 2 2 None [0;0;0;0;0;0;0; 0;1; 0;1; 1]%nat in
+    (pr_end r, pr_exact r, pr_lb r, pr_ub r) = (POutOfFuel, false, 6, 10) /\
+    par_chk Z.eqb (cfgR 7) 12 2 None [0;0;0;0;0;0;0; 0;1; 0;1; 1]%nat = false.
+  Proof. vm_compute. split; reflexivity. Qed.
+
+  (* hence the conclusion of C05_parallel_anytime does NOT follow from the hypotheses of section Storey2 alone ... *)
+  Theorem C05_parallel_anytime_unconditional_refuted :
+    ~ (forall T primal fuel sched, (1 <= T)%nat -> primal_okP (sfeasible pbR) primal ->
+         let r := par_maximize Z.eqb (cfgR 7) fuel T T primal sched in
+         pr_end r = PFinished -> forall o, opt_enum pbR = Some o -> o <= pr_ub r).
+  Proof.
+    intros Hall.
+    assert (Hp : primal_okP (sfeasible pbR) None) by (intros pv psol E; discriminate).
+    assert (He : pr_end (par_maximize Z.eqb (cfgR 7) 200 2 2 None schedR) = PFinished) by (vm_compute; reflexivity).
+    pose proof (Hall 2%nat None 200%nat schedR (le_S _ _ (le_n 1)) Hp He 15 residual_opt) as H.
+    assert (Hu : pr_ub (par_maximize Z.eqb (cfgR 7) 200 2 2 None schedR) = 10) by (vm_compute; reflexivity).
+    rewrite Hu in H. lia.
+  Qed.
+
+  (* ... and the extra contract KC3_lt is exactly what this configuration lacks *)
+  Corollary residual_not_KC3_lt : ~ KC3_lt Z.eqb (cfgR 7) (sgood pbR).
+  Proof.
+    intros HLt. apply C05_parallel_anytime_unconditional_refuted. intros T primal fuel sched HT Hp r He o Ho.
+    destruct (residual_premises 7) as (P1 & P2 & P3 & P4 & P5 & P6 & P7 & P8 & P9 & P10 & P12 & P13).
+    destruct (C05_parallel_anytime_lt Z.eqb P1 (cfgR 7) P2 P3 P4 P5 P6 P7 P8 P9 P10 100 P12 P13 T primal fuel sched HLt HT Hp He)
+      as (_ & _ & A3 & _).
+    apply (A3 o Ho).
+  Qed.
+End Residual.
+
+(* ------------------------------------------------------------------ assumptions *)
+Print Assumptions step_ubs.
+Print Assumptions step_ainv.
+Print Assumptions par_anytime_sound.
+Print Assumptions par_anytime_sound_any_end.
+Print Assumptions par_anytime_sound_checked.
+Print Assumptions par_anytime_sound_checked_any_end.
+Print Assumptions C05_parallel_anytime.
+Print Assumptions C05_parallel_anytime_any_end.
+Print Assumptions C05_parallel_anytime_lt.
+Print Assumptions C05_parallel_anytime_lt_any_end.
+Print Assumptions C05_parallel_table_instances.
+Print Assumptions ex3_two_workers_at_abort.
+Print Assumptions ex3_by_theorem.
+Print Assumptions ex3_out_of_fuel.
+Print Assumptions ex_ti_abort.
+Print Assumptions Residual.residual_premises.
+Print Assumptions Residual.residual_unsound.
+Print Assumptions Residual.C05_parallel_anytime_unconditional_refuted.
+Print Assumptions Residual.residual_not_KC3_lt.
